@@ -413,8 +413,11 @@ pub fn suite_hide(out: &mut Out, tier: &str, rng: &mut Rng) {
         for step in 0..6 {
             let secret = rng.bytes(sl); // same length, different content
             let (rv2, lp2) = if step % 3 == 2 { (rng.bytes(4), lp.clone()) } else { (rv.clone(), lp.clone()) };
+            let oki = rng.below(KINDS.len() as u64) as usize;
+            let other = gen_avp_kind(rng, oki, 8);
             out.emit(json!({"op": if step % 2 == 0 { "hide" } else { "hide_reveal" }, "v": a, "secret": bytes_json(&secret),
-                            "rv": bytes_json(&rv2), "lp": bytes_json(&lp2), "ap": bytes_json(&ap)}));
+                            "rv": bytes_json(&rv2), "lp": bytes_json(&lp2), "ap": bytes_json(&ap),
+                            "between": {"v": other, "secret": bytes_json(&rng.rbytes(0, 30)), "rv": bytes_json(&rng.bytes(4))}}));
         }
         // same secret, different values of the same kind
         let secret = rng.bytes(sl);
@@ -583,6 +586,20 @@ pub fn suite_bitmask(out: &mut Out, tier: &str, rng: &mut Rng) {
             for j in [6u32, 7, 30, 31] {
                 words.push(((1u32 << i) | (1 << j)).to_be_bytes());
             }
+        }
+        // runs of ones (all-ones shifted either way) and sign-extended / zero-extended octets and 16-bit values
+        for sh in 0..32 {
+            words.push((0xffff_ffffu32 << sh).to_be_bytes());
+            words.push((0xffff_ffffu32 >> sh).to_be_bytes());
+        }
+        for x in 0..=255u32 {
+            words.push(x.to_be_bytes());
+            words.push(((x as u8 as i8) as i32 as u32).to_be_bytes());
+            words.push((x << 8).to_be_bytes());
+        }
+        for x in [0x7fffu32, 0x8000, 0x80c0, 0xff80, 0xffc0, 0xffff] {
+            words.push(((x as u16 as i16) as i32 as u32).to_be_bytes());
+            words.push(x.to_be_bytes());
         }
         for _ in 0..counts(tier, 100, 20000) {
             words.push((rng.next() as u32).to_be_bytes());
@@ -1324,6 +1341,19 @@ pub fn suite_history(out: &mut Out, tier: &str, rng: &mut Rng) {
                                   "rv": bytes_json(&rng.bytes(4)), "lp": bytes_json(&lp), "ap": bytes_json(&rng.bytes(16)), "id": 0}));
             }
         }
+        // hides that differ only in the CONTENT of the secret (same kind, random vector and lengths), adjacent
+        for _ in 0..4 {
+            let ki = rng.below(KINDS.len() as u64) as usize;
+            let a = gen_avp_kind(rng, ki, 10);
+            let rv = rng.bytes(4);
+            let sl = rng.range(1, 24) as usize;
+            let lp = rng.rbytes(0, 20);
+            let ap = rng.bytes(16);
+            for _ in 0..3 {
+                calls.push(json!({"op": "hide", "v": a, "secret": bytes_json(&rng.bytes(sl)), "rv": bytes_json(&rv),
+                                  "lp": bytes_json(&lp), "ap": bytes_json(&ap), "id": 0}));
+            }
+        }
         // the same octets under lax and then strict options, adjacent in the even rounds and apart in the
         // odd (reversed) ones: a result must not depend on what an earlier call accepted
         for _ in 0..10 {
@@ -1349,6 +1379,24 @@ pub fn suite_many_avps(out: &mut Out, tier: &str, rng: &mut Rng) {
     } else {
         vec![15, 16, 17, 18, 33, 64, 65, 255, 256, 257, 300]
     };
+    // many BAD records in one message: 255, 256, 257, 512 errors (an error counter must not wrap)
+    for &n in [255usize, 256, 257, 512].iter() {
+        if tier != "thorough" && n == 512 {
+            continue;
+        }
+        let mut recs: Vec<Vec<u8>> = vec![enc_avp(&gen_message_type(rng))];
+        for i in 0..n {
+            recs.push(match i % 3 {
+                0 => enc_record(1, 8, 0, *rng.pick(&[20u16, 40, 999]), &[1, 2]),
+                1 => enc_record(1, 8, 0, 0, &[0, 5]),
+                _ => enc_record(1, 7, 0, 6, &[1]),
+            });
+        }
+        let body: Vec<u8> = recs.iter().flatten().copied().collect();
+        let b = enc_control_raw(flag_word(true, true, true, false, false, 2), None, [1, 2, 3, 4], &body);
+        out.emit(json!({"op": "ctl_records", "in": bytes_json(&b), "recs": recs.iter().map(|r| bytes_json(r)).collect::<Vec<_>>()}));
+        out.emit(json!({"op": "decode", "in": bytes_json(&b), "opts": [true, true, true], "entry": "validate", "rdr": "slice"}));
+    }
     // as many AVPs as a 65 535-octet message can hold (10 919 six-octet records after the Message Type)
     for n in [8191usize, 8192, 10920] {
         if tier != "thorough" && n == 8191 {
